@@ -72,6 +72,8 @@ func peekPred(name string) func(lexer.Token) bool {
 		set[peekTypes['N']] = true
 	case "EX":
 		set[peekTypes['E']], set[peekTypes['X']] = true, true
+	case "NX":
+		set[peekTypes['N']], set[peekTypes['X']] = true, true
 	}
 	return func(t lexer.Token) bool { return set[t.Type] }
 }
@@ -330,7 +332,7 @@ func recordStep(rng *rand.Rand, pl *lexer.PeekingLexer, toks []lexer.Token, cps 
 			case 3:
 				ev("RawPeek", tokIdx(pl.RawPeek()), 0, 0, "")
 			case 4:
-				m := []string{"none", "X", "N", "EX"}[rng.Intn(4)]
+				m := []string{"none", "X", "N", "EX", "NX"}[rng.Intn(5)]
 				_, c := pl.PeekAny(peekPred(m))
 				ev("PeekAny", int(c)+1, 0, 0, m)
 				if rng.Intn(2) == 0 {
